@@ -137,6 +137,7 @@ PROPS = {
         "units": [
             U("c19", "TestAuditor", T(25, 8, 300), T(40, 80, 600)),
             U("c19", "TestMonitor", T(25, 6, 300), T(40, 80, 600)),
+            U("c19", "TestPipeline", T(6, 8, 300), T(20, 48, 900)),
             U("c19", "TestPublisher", T(400, 2, 300), T(800, 32, 600)),
         ],
     },
